@@ -308,8 +308,12 @@ def units(tier, seed):
     pairs = [(a, b) for a in OPS for b in OPS]
     if q:
         # every placement of one preemption for every pair whose first (preempted) operation mutates
-        # shared state, against a representative set of second operations
-        pairs = [(a, b) for (a, b) in pairs if a in MUTATORS and b in SECOND_QUICK]
+        # shared state, against a representative set of second operations; plus readers preempted in the
+        # middle of their (multi-step) reads while a mutator runs
+        readers = ["x_P", "y_P", "eq_same", "eq_diff", "add_PQ", "add_QP", "double_P", "neg_P", "pickle_P",
+                   "affine_P", "pub_x", "vk_to_string", "vk_eq"]
+        writers = ["scale_P", "affine_P", "mul_P", "muladd", "precompute", "precompute_eager"]
+        pairs = [(a, b) for (a, b) in pairs if (a in MUTATORS and b in SECOND_QUICK) or (a in readers and b in writers)]
     # balance: long first operations first
     chunks = 30 if q else 60
     for i in range(chunks):
